@@ -1,6 +1,6 @@
 (* C06 -- proofs about a % b and a // b on C doubles (Model/M_FloatOps.v). *)
 From Coq Require Import ZArith Bool List SpecFloat Lia.
-From CyVerif Require Import Model.M_FloatOps.
+From CyVerif Require Import Model.M_FloatOps Lib.FloatMulOne.
 Import ListNotations.
 Open Scope Z_scope.
 
@@ -109,3 +109,12 @@ Section ModOld.
       + intros _ Hb E. apply (H2 Hb). injection E. auto.
   Qed.
 End ModOld.
+
+(* with the IEEE fact discharged (Lib/FloatMulOne.v) *)
+Theorem mod_old_characterised_ieee : forall (fmod : F -> F -> F),
+  (forall a, fmod a S754_nan = S754_nan) ->
+  forall a b, fvalid b = true ->
+  (mod_old_bad (fmod a b) b = false -> mod_node fmod false a b = py_float_rem fmod a b) /\
+  (feqb b fzero = false -> mod_old_bad (fmod a b) b = true ->
+     mod_node fmod false a b <> py_float_rem fmod a b).
+Proof. intros fmod Hn. apply (mod_old_characterised fmod fmul_one_l Hn). Qed.
